@@ -4,6 +4,7 @@
 //! or a witness result.
 mod enc;
 mod util;
+mod writer;
 
 use serde_json::json;
 use util::*;
@@ -32,7 +33,9 @@ fn main() {
         "witness" => {
             // witnesses of repaired defects: {"witness": name, "property": id, "ok": bool, "msg": ..}
             let only = arg(&args, "--only");
-            for (name, prop, f) in enc::witnesses() {
+            let mut all = enc::witnesses();
+            all.extend(writer::witnesses());
+            for (name, prop, f) in all {
                 if let Some(o) = &only {
                     if o != name && o != prop {
                         continue;
@@ -42,6 +45,7 @@ fn main() {
                 out.raw(&json!({"witness": name, "property": prop, "ok": r.is_ok(), "msg": r.err().unwrap_or_default(), "flavour": flavour}));
             }
         }
+        "c09" => writer::c09_cases(&mut rng, &tier, &mut out),
         #[cfg(feature = "scaled")]
         "c11-enc" => enc::c11_enc_cases(&mut rng, &tier, &mut out),
         other => {
